@@ -379,31 +379,33 @@ CONTROLS = (("RetryMC_ctl_noWait.cfg", "ShutdownWaits", "Shutdown returns withou
             ("RetryMC_ctl_live.cfg", "temporal", "liveness control: 'every call ends' although a call without deadline may retry for ever"))
 
 
+QUICK_MC = ["RetryMC_quick.cfg", "RetryMC_timeout.cfg", "RetryMC_gate.cfg", "RetryMC_labels.cfg", "RetryMC_sync.cfg", "RetryMC_live.cfg"]
+THOROUGH_MC = ["RetryMC.cfg", "RetryMC_three_thorough.cfg", "RetryMC_gate_thorough.cfg", "RetryMC_live_thorough.cfg",
+               "RetryMC_timeout.cfg", "RetryMC_labels.cfg", "RetryMC_sync.cfg"]
+
+
 def design_check(o, tier, seed):
     """Design check, the controls that MUST be violated and the schedule generation -- independent TLC runs side by side
-    (vlib.scratch is not thread-safe: the scratch dirs are made first)."""
+    (vlib.scratch is not thread-safe: the scratch dirs are made first).  Returns the generated histories as soon as the two
+    generation runs are done and a function that waits for the model-checking runs and books their results: the
+    conformance runs meanwhile."""
     from concurrent.futures import ThreadPoolExecutor
     thorough = tier == "thorough"
-    mains = ["RetryMC.cfg", "RetryMC_three_thorough.cfg", "RetryMC_gate.cfg", "RetryMC_live.cfg"] if thorough else \
-            ["RetryMC_quick.cfg", "RetryMC_three.cfg", "RetryMC_gate.cfg", "RetryMC_live.cfg"]
-    jobs = [("RetryMC", c, dict(workers=WORKERS or (6 if thorough else 4))) for c in mains]
-    jobs += [("RetryMC", c, dict(workers=2)) for c, _, _ in CONTROLS]
+    mains = THOROUGH_MC if thorough else QUICK_MC
     n = 1500 if thorough else 260
-    jobs += [("RetryGen", "RetryGen.cfg", dict(simulate="num=%d" % n, depth=120, seed=seed, workers=1)),
-             ("RetryGen", "RetryGen_short.cfg", dict(simulate="num=%d" % n, depth=120, seed=seed + 1000, workers=1))]
+    jobs = [("RetryGen", "RetryGen.cfg", dict(simulate="num=%d" % n, depth=120, seed=seed, workers=1)),
+            ("RetryGen", "RetryGen_short.cfg", dict(simulate="num=%d" % n, depth=120, seed=seed + 1000, workers=1))]
+    controls = CONTROLS
+    if os.environ.get("VERIF_RETRY_NOMC"):      # mutation experiments: the design check does not depend on the tree
+        mains, controls = [], ()
+    jobs += [("RetryMC", c, dict(workers=WORKERS or (4 if thorough else 2))) for c in mains]
+    jobs += [("RetryMC", c, dict(workers=1)) for c, _, _ in controls]
     dirs = [vlib.scratch(o.pid, FAMILY) for _ in jobs]
-    with ThreadPoolExecutor(max_workers=len(jobs)) as ex:
-        res = list(ex.map(lambda jd: vlib.tlc(o.pid, FAMILY, jd[0][0], jd[0][1], timeout=1700, sdir=jd[1], **jd[0][2]),
-                          zip(jobs, dirs)))
-    for (mod, cfg, _), r in zip(jobs[:len(mains)], res):
-        vlib.require_mc_ok(r, cfg)
-        o.add_mc("Retry/" + cfg[:-4], r)
-    for (cfg, inv, what), r in zip(CONTROLS, res[len(mains):]):
-        if r.violation != inv:
-            raise vlib.Infra("design-spec control failed: '%s' not caught by %s: %s" % (what, inv, r.summary()))
-        o.selftests.append({"control": "Retry spec variant '%s' violates %s" % (what, inv), "rejected_as_required": True})
+    ex = ThreadPoolExecutor(max_workers=len(jobs))
+    futs = [ex.submit(vlib.tlc, o.pid, FAMILY, j[0], j[1], timeout=1700, sdir=d, **j[2]) for j, d in zip(jobs, dirs)]
     hists, seen = [], set()
-    for g in res[-2:]:
+    for f in futs[:2]:
+        g = f.result()
         if g.error or g.timed_out or (g.violation and g.violation != "deadlock"):
             raise vlib.Infra("schedule generation failed: %s\n%s" % (g.summary(), g.out[-2000:]))
         for p in vlib.tagged_prints(g, "SCHED"):
@@ -412,7 +414,19 @@ def design_check(o, tier, seed):
                 hists.append(json.loads(p))
     if not hists:
         raise vlib.Infra("schedule generation: no histories")
-    return hists
+
+    def join():
+        res = [f.result() for f in futs[2:]]
+        ex.shutdown()
+        for cfg, r in zip(mains, res):
+            vlib.require_mc_ok(r, cfg)
+            o.add_mc("Retry/" + cfg[:-4], r)
+        for (cfg, inv, what), r in zip(controls, res[len(mains):]):
+            got = r.violation or ("temporal" if "Temporal property AllCallsEnd was violated" in r.out else None)
+            if got != inv:
+                raise vlib.Infra("design-spec control failed: '%s' not caught by %s: %s" % (what, inv, r.summary()))
+            o.selftests.append({"control": "Retry spec variant '%s' violates %s" % (what, inv), "rejected_as_required": True})
+    return hists, join
 
 
 def stage(o, tier, seed):
@@ -420,7 +434,7 @@ def stage(o, tier, seed):
     t0 = time.time()
     thorough = tier == "thorough"
     texts = spec_texts()
-    hists = design_check(o, tier, seed)
+    hists, join_design = design_check(o, tier, seed)
     r = vlib.rng(seed, "retry-gen")
     r.shuffle(hists)
     hists = hists[:6000 if thorough else 900]
@@ -429,6 +443,7 @@ def stage(o, tier, seed):
     o.extra["retry_histories_by_tlc"] = len(gen)
     vlib.conformance(o, FAMILY, TRACE, TCFG, PKG, gen, tag="retrygen", chunk=400, exec_timeout=900, tv_timeout=900)
     vlib.conformance(o, FAMILY, TRACE, TCFG, PKG, rnd, tag="retryrnd", chunk=300, exec_timeout=900, tv_timeout=900)
+    join_design()
     tr = []
     for tag in ("retrygen", "retryrnd"):
         tr += vlib.split_traces(vlib.read_ndjson(os.path.join(vlib.workdir(o.pid), "trace_%s.ndjson" % tag)))
